@@ -222,6 +222,7 @@ func main() {
 			if c != nil && time.Now().UnixNano()-curSince.Load() > int64(20*time.Second) {
 				x.finding(Finding{Kind: "hang", Fn: c.Fn, Case: c.line(), Detail: "call did not return within 20s"})
 				st.Notes = append(st.Notes, "aborted by watchdog")
+				w.Flush() // the main goroutine is stuck inside the library call, not writing
 				js, _ := json.MarshalIndent(st, "", " ")
 				os.WriteFile(filepath.Join(*out, "stats.json"), js, 0o644)
 				os.Exit(3)
